@@ -19,6 +19,8 @@ import (
 //	U         Unlock with the token of this thread's last successful Lock
 //	E<t>      Lease own token for t ms
 //	S<d>      sleep d ms of virtual time
+//	V         Unlock once more with the token this thread has already released (a stale token)
+//	W<t>      Lease with that released token
 type lockStep struct {
 	op      string
 	timeout time.Duration
@@ -41,6 +43,11 @@ func parseLockProg(s string) []lockStep {
 		case 'S':
 			fmt.Sscanf(f[1:], "%d", &a)
 			out = append(out, lockStep{op: "sleep", dl: time.Duration(a) * time.Millisecond})
+		case 'V':
+			out = append(out, lockStep{op: "stale-unlock"})
+		case 'W':
+			fmt.Sscanf(f[1:], "%d", &a)
+			out = append(out, lockStep{op: "stale-lease", timeout: time.Duration(a) * time.Millisecond})
 		}
 	}
 	return out
@@ -54,7 +61,7 @@ type lockIn struct {
 func lockBody(prog string) func(e *schedmc.Env) {
 	steps := parseLockProg(prog)
 	return func(e *schedmc.Env) {
-		var tok []byte
+		var tok, stale []byte
 		var last *schedmc.Call
 		for _, st := range steps {
 			st := st
@@ -80,8 +87,18 @@ func lockBody(prog string) func(e *schedmc.Env) {
 				if tok == nil {
 					continue
 				}
-				e.H.Do(e.Tid, "unlock", "own", lockIn{lockCall: last}, func() simcluster.Res { return e.KV.Unlock(e.Key, tok) })
+				if r := e.H.Do(e.Tid, "unlock", "own", lockIn{lockCall: last}, func() simcluster.Res { return e.KV.Unlock(e.Key, tok) }); r.Err == "" {
+					stale = tok
+				}
 				tok = nil
+			case "stale-unlock":
+				if stale != nil {
+					e.H.Do(e.Tid, "stale-unlock", "released token", lockIn{}, func() simcluster.Res { return e.KV.Unlock(e.Key, stale) })
+				}
+			case "stale-lease":
+				if stale != nil {
+					e.H.Do(e.Tid, "stale-lease", st.timeout.String(), lockIn{timeout: st.timeout}, func() simcluster.Res { return e.KV.Lease(e.Key, stale, st.timeout) })
+				}
 			case "lease":
 				if tok == nil {
 					continue
@@ -109,6 +126,15 @@ func judgeLocks(h *schedmc.Hist, sig string, x *sched.Exec) (string, string) {
 		}
 		in := c.In.(lockIn)
 		switch c.Op {
+		case "stale-unlock", "stale-lease":
+			// the token was released by this client's own successful Unlock: it is nobody's
+			switch c.Res.Err {
+			case "nosuchlock":
+			case "":
+				return "stale-token-accepted/" + c.Op + "/" + sig, fmt.Sprintf("%s succeeded with a token whose lock this client had already released", c)
+			default:
+				return "unexpected-error/" + sig, c.Op + " failed: " + c.String()
+			}
 		case "lock":
 			if c.Res.Err == "locknotacquired" {
 				if c.RetNS-c.InvNS < int64(in.dl) {
@@ -328,6 +354,28 @@ func c08Programs(tier string) []*schedmc.Program {
 				}
 				p.Judge = func(cl *simcluster.Cluster, h *schedmc.Hist, x *sched.Exec) (string, string) {
 					sig := fmt.Sprintf("progs=%s/entries=%s", strings.ReplaceAll(strings.Join(ps, "||"), " ", "."), strings.Join(classes(ents), "+"))
+					return judgeLocks(h, sig, x)
+				}
+				progs = append(progs, p)
+			}
+		}
+	}
+	// a released token presented again (Unlock, Lease), on replicated clusters with and without
+	// read-repair: it is nobody's token, whatever the copies on the backup owners still say
+	for _, rr := range []bool{false, true} {
+		for _, ps := range [][]string{{"L0/0 U V", "S1 L0/30 U"}, {"L0/0 U W40", "S1 L0/50 U"}, {"L40/0 U V W40", "S1 L0/30"}} {
+			for _, ents := range [][]string{{"EO", "EO"}, {"EN", "CC"}} {
+				ps, ents := ps, ents
+				p := &schedmc.Program{
+					Name: fmt.Sprintf("stale token locks=[%s] N=2 R=2 rr=%v entries=%s", strings.Join(ps, " || "), rr, strings.Join(ents, "+")),
+					Opts: simcluster.Opts{N: 2, Replicas: 2, WriteQ: 1, ReadQ: 1, Partitions: 7, ReadRepair: rr},
+					DMap: "locks", Key: "res",
+				}
+				for i, e := range ents {
+					p.Threads = append(p.Threads, schedmc.Thread{Entry: e, Body: lockBody(ps[i])})
+				}
+				p.Judge = func(cl *simcluster.Cluster, h *schedmc.Hist, x *sched.Exec) (string, string) {
+					sig := fmt.Sprintf("progs=%s/entries=%s/rr=%v", strings.ReplaceAll(strings.Join(ps, "||"), " ", "."), strings.Join(classes(ents), "+"), rr)
 					return judgeLocks(h, sig, x)
 				}
 				progs = append(progs, p)
